@@ -26,6 +26,7 @@ def reset():
     TRACE.clear()
     SNAPS.clear()
     ECHO.clear()
+    CAL_LOG.clear()
     BARRIER = None
     TRACE_FILE = os.environ.get("VPROBES_TRACE_FILE")
 
@@ -328,3 +329,36 @@ def fault2(detector, tag=None, token="tok", exc="ValueError", at_step=None, at_t
         raise classes[exc](token)
     detector.pixel.array = detector.pixel.array + 1.0
     detector.image.array = np.full(detector.geometry.shape, 3, dtype=np.uint16)
+
+
+# --------------------------------------------------------------------------- calibration probes
+CAL_LOG: list = []
+
+
+def cal_frame(shape, values: dict, step: int = 0, offset: float = 0.0):
+    """Analytic frame the harness can recompute: depends on every received value, the pixel position and the step."""
+    rows, cols = shape
+    yy, xx = np.mgrid[0:rows, 0:cols]
+    total = 0.0
+    for k, name in enumerate(sorted(values)):
+        v = values[name]
+        vec = np.atleast_1d(np.asarray(v, dtype=float))
+        total = total + (k + 1) * sum((1.0 + 0.5 * j) * float(x) for j, x in enumerate(vec))
+    return (total * (1.0 + 0.25 * step) + offset) + 0.5 * yy + 0.125 * xx * (1.0 + step)
+
+
+def cal_probe(detector, p0=None, p1=None, p2=None, p3=None, offset=0.0, noise=0.0, tag=None):
+    """Calibration probe: logs exactly what it received and writes an analytic frame into pixel / signal / image."""
+    vals = {k: v for k, v in (("p0", p0), ("p1", p1), ("p2", p2), ("p3", p3)) if v is not None}
+    qe = getattr(detector.characteristics, "_quantum_efficiency", None)
+    rec = {"kind": "cal", "values": {k: (float(v) if np.ndim(v) == 0 else [float(x) for x in np.asarray(v).ravel()]) for k, v in vals.items()},
+           "types": {k: type(v).__name__ for k, v in vals.items()}, "offset": float(offset), "qe": qe, "step": int(detector.pipeline_count),
+           "thread": threading.get_ident()}
+    CAL_LOG.append(rec)
+    _log(rec)
+    frame = cal_frame(detector.geometry.shape, rec["values"], step=int(detector.pipeline_count), offset=float(offset) + (1000.0 * float(qe) if qe is not None else 0.0))
+    if noise:
+        frame = frame + np.random.normal(0.0, float(noise), size=frame.shape)
+    detector.pixel.array = frame.astype(float)
+    detector.signal.array = (frame * 0.5).astype(float)
+    detector.image.array = np.clip(np.abs(frame), 0, 60000).astype(np.uint16)
